@@ -11,6 +11,8 @@ import traceback
 
 ROOT = os.path.dirname(os.path.dirname(os.path.abspath(__file__)))
 SRC_ROOT = os.environ.get("PYVC_SRC_ROOT", "/repo/src")
+# runs against a scratch copy of the source (mutants, seeded changes) must not overwrite the evidence of /repo itself
+OUT = ROOT if SRC_ROOT == "/repo/src" else os.path.join(ROOT, ".cache", "scratch-runs")
 
 
 def _engine_targets(ded, results, tier):
@@ -154,8 +156,8 @@ def run_property(pid, prop, tier, seed, known, t0):
         if xc["disagreements"]:
             print(f"CHECKER-ERROR property={pid} the encoding of Python disagrees with CPython: {xc['first']}")
             return 3
-    os.makedirs(os.path.join(ROOT, "replays"), exist_ok=True)
-    os.makedirs(os.path.join(ROOT, "evidence"), exist_ok=True)
+    os.makedirs(os.path.join(OUT, "replays"), exist_ok=True)
+    os.makedirs(os.path.join(OUT, "evidence"), exist_ok=True)
     ded_results = []
     for ded in getattr(prop, "DEDUCTIVE", []):
         recs = _engine_targets(ded, ded_results, tier)
@@ -228,7 +230,7 @@ def run_property(pid, prop, tier, seed, known, t0):
 
     def write_replay(payload):
         nonlocal vid
-        path = os.path.join(ROOT, "replays", f"{pid}-{vid}.json")
+        path = os.path.join(OUT, "replays", f"{pid}-{vid}.json")
         vid += 1
         with open(path, "w") as f:
             json.dump(payload, f, indent=1, default=str)
@@ -331,7 +333,7 @@ def run_property(pid, prop, tier, seed, known, t0):
               "extraction drops: logging.* statements incl. their arguments, docstrings, annotations, imports",
               "termination is proved only for loops with a decreases clause"],
           "wall_s": round(time.time() - t0, 2), "violations": len(lines)}
-    with open(os.path.join(ROOT, "evidence", f"{pid}.json"), "w") as f:
+    with open(os.path.join(OUT, "evidence", f"{pid}.json"), "w") as f:
         json.dump(ev, f, indent=1, default=str)
     print(f"property={pid} tier={tier} obligations={n_obl} discharged={n_dis} bounded_evaluations={n_eval} "
           f"nontrivial={nontrivial} known={len(known_lines)} violations={len(lines)} wall={ev['wall_s']}s")
